@@ -170,6 +170,10 @@ func (s *State) get(k HeapKey) string {
 			t = s.entry.get(k)
 		} else if s.modAll || s.mod[k.Name] {
 			t = s.c.declare(fmt.Sprintf("%s@L%d", k.Name, s.epoch), k.Sort)
+			if strings.HasPrefix(k.Name, "G_calls_") {
+				// a call counter at a loop head: unknown, but it only ever counts up from its value before the loop
+				s.c.axiom(fmt.Sprintf("(>= %s %s)", t, s.entry.get(k)), t)
+			}
 			s.c.byteHeapAxiom(k, t, false)
 			if s.c.immutableKey(k.Name) {
 				s.c.immutablePreserved(k, t, s.entry)
